@@ -72,8 +72,12 @@ class _TabulationCutoff(object):
       cutoff = (nr-1)*dr      
     elif cutoff and dr:
       # Set nr
-      nr = (cutoff/dr) + 1
-      nr = int(nr)
+      nsteps = cutoff/dr
+      # cutoff/dr can fall just short of a whole number through floating point round-off
+      # (e.g. 0.3/0.1 == 2.9999999999999996), which would lose the final row.
+      if abs(nsteps - round(nsteps)) <= 1e-9 * max(1.0, abs(nsteps)):
+        nsteps = round(nsteps)
+      nr = int(nsteps) + 1
     elif not dr is None:
       raise ConfigParserException("'{dr}' cannot be specified without either '{nr}' or '{cutoff}' in [Tabulation] section of potential definition.".format(**self._template_dict))
 
